@@ -40,6 +40,9 @@ var opSwaps = map[token.Token][]token.Token{
 var typeSwaps = []string{"int", "string", "bool", "float64", "uint8", "[]int", "*S", "S", "N", "map[string]int", "chan int", "I", "error", "func(int) int", "any", "int8", "complex128"}
 
 // Mutate applies one random type-breaking mutation to src.
+// overflowPairs: a typed declaration whose constant initialiser is not representable in the type
+var overflowPairs = [][2]string{{"uintptr", "-1"}, {"uintptr", "1 << 64"}, {"uint8", "256"}, {"int8", "-129"}, {"uint64", "-1"}, {"int64", "1 << 63"}, {"uint", "1 << 64"}, {"uint16", "'\\U0001F600'"}, {"int8", "'\u00e9'"}, {"uint32", "-1"}, {"int", "1 << 63"}, {"uintptr", "1.5"}}
+
 func Mutate(t *rapid.T, src string) Mutation {
 	fset := token.NewFileSet()
 	f, err := parser.ParseFile(fset, "a.go", src, parser.SkipObjectResolution)
@@ -151,6 +154,12 @@ func Mutate(t *rapid.T, src string) Mutation {
 				}
 				add("add-result", func() { x.Results = append(x.Results, &ast.BasicLit{Kind: token.STRING, Value: `"extra"`}) })
 			case *ast.ValueSpec:
+				if x.Type != nil && len(x.Values) == 1 && len(x.Names) == 1 {
+					add("typed-decl-overflow", func() {
+						pr := overflowPairs[rapid.IntRange(0, len(overflowPairs)-1).Draw(t, "ovf")]
+						x.Type, x.Values[0] = parseExpr(pr[0]), parseExpr(pr[1])
+					})
+				}
 				if x.Type != nil {
 					add("decl-type", func() { x.Type = parseExpr(typeSwaps[rapid.IntRange(0, len(typeSwaps)-1).Draw(t, "ty")]) })
 				}
@@ -202,6 +211,24 @@ func Mutate(t *rapid.T, src string) Mutation {
 			case *ast.StarExpr:
 				add("deref-non-ptr", func() { x.X = parseExpr("vint") })
 			case *ast.BlockStmt:
+				for i, st := range x.List {
+					// a, b := two()  =>  var a chan bool; a, b := two(): the re-used variable's type does
+					// not match the tuple element
+					as, ok := st.(*ast.AssignStmt)
+					if !ok || as.Tok != token.DEFINE || len(as.Lhs) < 2 || len(as.Rhs) != 1 {
+						continue
+					}
+					id, ok := as.Lhs[rapid.IntRange(0, len(as.Lhs)-2).Draw(t, "reuse")].(*ast.Ident)
+					if !ok || id.Name == "_" {
+						continue
+					}
+					i := i
+					add("define-reuses-mistyped-var", func() {
+						decl := &ast.DeclStmt{Decl: &ast.GenDecl{Tok: token.VAR, Specs: []ast.Spec{&ast.ValueSpec{Names: []*ast.Ident{ast.NewIdent(id.Name)}, Type: parseExpr("chan bool")}}}}
+						x.List = append(x.List[:i:i], append([]ast.Stmt{decl}, x.List[i:]...)...)
+					})
+					break
+				}
 				if fd != nil && x == fd.Body && len(x.List) > 0 {
 					if _, ok := x.List[len(x.List)-1].(*ast.ReturnStmt); ok {
 						add("drop-final-return", func() { x.List = x.List[:len(x.List)-1] })
